@@ -228,6 +228,8 @@ def execute(case, ctx):
                 if lo > hi:
                     continue
 
+                had_docstr = getattr(pf, 'has_docstr', None)
+
                 try:
                     piece = pf.get_slice(s_, e_, field, cut=True)
                 except Exception as exc:
@@ -245,6 +247,11 @@ def execute(case, ctx):
 
                     if p2 is None:
                         ctx.count('parent_replaced_by_cut')
+
+                        return
+
+                    if field == '_body' and getattr(p2, 'has_docstr', None) != had_docstr:
+                        ctx.count('cut_made_a_string_statement_the_docstring(_body indices shift, documented virtual field)')
 
                         return
 
